@@ -24,8 +24,12 @@ def c06_rank_deficient(facts):
 
 
 def c05_repeated(facts):
-    """Some singular value is repeated within 1e-8 sigma_1 (zero counted, incl. the |m-n| structural zeros)."""
-    return bool(facts and facts.get("repeated"))
+    """Some singular value is repeated within 1e-8 sigma_1 (zero counted, incl. the |m-n| structural zeros) and only clauses about the
+    singular VECTORS fail (unitarity, reconstruction, truncated orthonormality / optimality); shapes and singular VALUES are right."""
+    from .props.c05 import KNOWN_CLAUSES
+    if not (facts and facts.get("repeated")):
+        return False
+    return all(f in KNOWN_CLAUSES for f in facts.get("failures", []))
 
 
 def c12_rank_lt_R(facts):
